@@ -240,12 +240,31 @@ def accessor_summary(facts, key, summ=None):
 def field_path(t):
     """("field", ("field", ("arg",1), "parts"), "name") -> "parts.name" ; None if not rooted at arg1"""
     names = []
-    while t[0] == "field":
+    while t[0] == "field" or (t[0] == "var" and len(t) > 2 and isinstance(t[2], tuple) and t[2] and t[2][0] in ("field", "var")):
+        if t[0] == "var":
+            # a local initialised by moving a field out of self (`let Self { a, b } = self;`) continues that field's life:
+            # the moved-from place is dead afterwards, so the local *is* the field for every later effect
+            t = t[2]
+            continue
         names.append(t[2])
         t = t[1]
     if t == ("arg", 1):
         return ".".join(reversed(names))
     return None
+
+
+def self_field_locals(body):
+    """{local: field path} for the mutable locals initialised by moving a field out of self"""
+    out = {}
+    for l in sorted(body.mut_locals()):
+        if l <= body.arg_count:
+            continue
+        t = body.resolve_local(l)
+        if t[0] == "var" and len(t) > 2 and isinstance(t[2], tuple) and t[2] and t[2][0] == "field":
+            fp = field_path(t[2])
+            if fp is not None:
+                out[l] = fp
+    return out
 
 
 # ====================================================================== PM -- parser model
@@ -336,7 +355,8 @@ def _region(n):
             if ks is not None:
                 return ("StripPrefix", ks, _region(x[2][0]))
         if x[0] == "call" and "Iterator" in x[1] and x[1].endswith("::next"):
-            src = iter_source(x)
+            # an item of split(c).filter(p) is an item of split(c) for which p holds (sem.filter_atoms supplies p as path atoms)
+            src = iter_source(x, through=("std::iter::Iterator::filter",) if x[1].startswith("<std::iter::Filter<") else ())
             if src is not None and src[0] == "call" and src[1] == STR + "split" and cchar(src[2][1]) is not None:
                 return ("Item", cchar(src[2][1]), _region(src[2][0]))
         return ("?", nshow(n))
@@ -598,6 +618,8 @@ def mut_target(a):
         elif t[0] == "downcast":
             fields.append("<%s>" % t[2])
             t = t[1]
+        elif t[0] == "var" and len(t) > 2 and isinstance(t[2], tuple) and t[2] and t[2][0] == "field" and field_path(t[2]) is not None:
+            t = t[2]  # a local that continues a field moved out of self (see field_path)
         else:
             break
     if not mutable:
@@ -726,12 +748,18 @@ def canon_atom(a):
             return ("contains-any", tuple(const_chars_t(args[1])), _value(args[0]), pos)
         if p == SLICE_CONTAINS and const_strs(args[0]) is not None:
             return ("inlist", tuple(const_strs(args[0])), _value(args[1]), pos)
-        if p.endswith("<impl std::cmp::PartialEq for str>::eq") and len(args) == 2:
+        if (p.endswith("<impl std::cmp::PartialEq for str>::eq") or p.endswith("<impl std::cmp::PartialEq for str>::ne")
+                or p in ("std::cmp::impls::<impl std::cmp::PartialEq<&B> for &A>::eq", "std::cmp::impls::<impl std::cmp::PartialEq<&B> for &A>::ne")) and len(args) == 2:
+            eqpos = pos if p.endswith("::eq") else (not pos)
             for x, y in ((args[0], args[1]), (args[1], args[0])):
+                y = strip(y)
+                if y[0] == "named" and isinstance(y[3], str):
+                    y = ("const", y[3])
                 if y[0] == "const" and isinstance(y[1], str):
+                    # (&A == &B delegates to A == B; only taken as a str comparison when the other side is a str constant)
                     if y[1] == "":
-                        return ("empty", _value(x), pos)
-                    return ("inlist", (y[1],), _value(x), pos)
+                        return ("empty", _value(strip(x)), eqpos)
+                    return ("inlist", (y[1],), _value(strip(x)), eqpos)
         if p in ("std::iter::Iterator::all", "std::iter::Iterator::any") and len(args) == 2 and args[1][0] in ("closure", "fn"):
             it = args[0][2] if args[0][0] == "var" else args[0]
             if it[0] == "call" and it[1] == STR + "chars":
@@ -755,6 +783,9 @@ def _value(n):
     if n[0] == "var":
         return ("Var", n[1])
     if n[0] == "field":
+        fp = field_path(n)
+        if fp is not None:
+            return ("Field", "arg1." + fp)
         return ("Field", nshow(n))
     return r
 
